@@ -12,16 +12,16 @@
 static ssize_t _fast_append(MPT_STRUCT(slice) *sl, size_t nblk, const void *from, size_t esze)
 {
 	MPT_STRUCT(buffer) *buf = sl->_a._buf;
-	size_t pos, avail, add, take, used;
+	size_t pos, avail, take;
 	uint8_t *ptr;
 	pos = sl->_off + sl->_len;
 	avail = buf->_size - pos;
 	
-	add = esze;
-	take = 0;
-	while (add < avail && nblk--) {
-		take += esze;
+	/* limit to complete blocks fitting available space */
+	if (nblk > avail / esze) {
+		nblk = avail / esze;
 	}
+	take = nblk * esze;
 	ptr = (void *) (buf + 1);
 	if (from) {
 		memcpy(ptr + pos, from, take);
@@ -30,11 +30,10 @@ static ssize_t _fast_append(MPT_STRUCT(slice) *sl, size_t nblk, const void *from
 	}
 	sl->_len += take;
 	pos += take;
-	used = buf->_used;
-	if (used > pos) {
-		buf->_used = used;
+	if (pos > buf->_used) {
+		buf->_used = pos;
 	}
-	return take;
+	return nblk;
 }
 
 /*!
